@@ -28,6 +28,8 @@ from symx import core
 from symx.core import Inconclusive, PathAbort, cur, fresh_int, is_sym, zi
 from props import tok_common as T
 
+from props import alias_common as _alias
+
 ID = "C07"
 VERIF = Path(__file__).resolve().parent.parent
 MODES = ["AOTP_UT_rasterized", "AOTP_UT_uniform", "AOTP_CTT_indexed"]
@@ -489,6 +491,7 @@ def jobs(tier, seed):
         if t:
             out.append(dict(h="lemma", lemma=name, timeout=t, max_seconds=3 * t + 200))
     out.sort(key=lambda j: 0 if j["h"] == "lemma" else 1)
+    out.append(dict(_alias.ALIAS_JOB))  # results must not alias library state, arguments or each other (props/alias_common.py)
     return out
 
 
@@ -499,6 +502,7 @@ HARNESSES = {
     "dataset": dict(run=_run_dataset, replay=_replay_dataset, patch=_P),
     "lemma": dict(run=_run_lemma, replay=_replay_lemma, patch=_P, validate_every=0),
 }
+HARNESSES["alias"] = _alias.alias_harness("C07")
 
 MANIFEST = dict(engine="symx", also=["crosshair"],
                 technique="solver-based bounded checking: path-forking symbolic execution of the real Python code over z3 (round trips, agreement, dataset level) "
@@ -526,3 +530,5 @@ META = dict(
     assumptions=["solutions are the solver's shortest paths, except in the 'any simple path' instances (2x2 all mazes, 3x3 around one base)", "precondition of parsing back: every row and column index occurs in some connection (stated by the property)"],
     engine="symx path-forking executor over z3 " + z3.get_version_string() + "; CrossHair 0.0.110 for the lemmas",
 )
+
+META.setdefault("degenerate", {})["alias"] = _alias.ALIAS_META
